@@ -93,6 +93,60 @@ def sfl_strategy(draw, tier):
             "memory": draw(st.sampled_from(["uniform", "per", "nstep", "per+nstep"]))}
 
 
+def run_loops(case, ctx):
+    from vp.core import isolate
+    from vp.gen.pzoracle import Findings
+    from vp.props import c20_loops
+
+    res = isolate.run_isolated(c20_loops.loop_child, case, 300.0)
+    if res["status"] == "ok":
+        Findings.replay(res["result"], ctx)
+        return
+    kind = "single_env" if case["envs"] == 0 else "vector_env"
+    if res["status"] == "timeout":
+        ctx.fail(f"C20/{case['loop']}/completes/{kind}/hang", "training function did not return within 300 s",
+                 progress=res.get("progress", [])[-3:])
+    else:
+        ctx.fail(f"C20/{case['loop']}/completes/{kind}/process_died", "the process running the training function died",
+                 info=str(res.get("result"))[:500])
+
+
+@st.composite
+def loops_strategy(draw, tier):
+    from vp.props.c20_loops import LOOP_ALGOS
+
+    loop = draw(st.sampled_from(["off_policy", "off_policy", "on_policy", "offline", "bandits", "ma_off", "ma_on"]))
+    algo = draw(st.sampled_from(LOOP_ALGOS[loop]))
+    if loop == "bandits":
+        obs, envs = "vector", 0
+    elif loop in ("ma_off", "ma_on"):
+        obs = draw(st.sampled_from(["vector", "vector", "image", "discrete"]))
+        envs = draw(st.sampled_from([0, 1, 2, 3]))
+    else:
+        obs = draw(st.sampled_from(["vector", "vector", "image", "dict", "discrete"] if loop != "offline" else ["vector", "image", "discrete"]))
+        envs = draw(st.sampled_from([0, 1, 2, 3, 4]))
+    evo = draw(st.integers(6, 20))
+    gens = draw(st.integers(2, 4))
+    pop = draw(st.integers(1, 3))
+    max_steps = evo * gens - draw(st.integers(0, 3))
+    if loop == "ma_on":
+        max_steps *= pop
+    act = "box"
+    if algo == "PPO":
+        act = draw(st.sampled_from(["discrete", "box", "multidiscrete"]))
+    elif algo in ("MADDPG", "MATD3", "IPPO"):
+        act = draw(st.sampled_from(["discrete", "box"]))
+    elif algo in ("DDPG", "TD3"):
+        act = draw(st.sampled_from(["box", "box_asym"]))
+    return {"loop": loop, "algo": algo, "obs": obs, "obsv": draw(st.integers(0, 2)), "actv": draw(st.integers(0, 2)), "act": act,
+            "envs": envs, "pop": pop, "seed": draw(st.integers(0, 999)), "ep_len": draw(st.integers(2, 7)),
+            "evo_steps": evo, "max_steps": max_steps, "eval_steps": draw(st.sampled_from([None, 3, 5])),
+            "batch_size": draw(st.integers(2, 4)), "learn_step": draw(st.sampled_from([1, 2, 3, 4, 8])),
+            "learning_delay": draw(st.sampled_from([0, 0, 3])), "memory": draw(st.sampled_from(["uniform", "per", "nstep", "per+nstep"])),
+            "evolve": draw(st.booleans()), "mut_probs": draw(st.sampled_from([[1, 0, 0, 0, 0], [0.2, 0.2, 0.2, 0.2, 0.2], [0, 0.5, 0, 0, 0.5], [0, 0, 1, 0, 0]])),
+            "checkpoint": draw(st.sampled_from([None, None, 5])), "target": draw(st.sampled_from([None, None, None, 1e9]))}
+
+
 PROPERTY = Property(
     id="C20",
     level="exploration",
@@ -100,7 +154,10 @@ PROPERTY = Property(
           "loops do, the Sampler's output is handed to learn(); non-trivial = learn was reached; distinct by configuration"),
     obligations=[
         Obligation("sampler_feeds_learn", run_sampler_feeds_learn, strategy=sfl_strategy,
-                   examples={"quick": 60, "thorough": 600}, shards={"quick": 8, "thorough": 16}),
+                   examples={"quick": 40, "thorough": 600}, shards={"quick": 4, "thorough": 16}),
+        Obligation("training_loops", run_loops, strategy=loops_strategy,
+                   examples={"quick": 12, "thorough": 150}, shards={"quick": 12, "thorough": 16},
+                   shrink_budget={"quick": 40, "thorough": 200}),
     ],
     assumptions=[],
 )
